@@ -115,6 +115,13 @@ AddYmI(v, yrs, mons) ==
 AddYmViaDate(v, yrs, mons, ovf) ==
   LET r == AddDateI(First(v), yrs, mons, 0, 0, ovf)
   IN IF r.kind # "ok" THEN r ELSE IF YmInLimits(r.val.y, r.val.m) THEN Ok(YMV(r.val.y, r.val.m, 1)) ELSE ErrRange
+\* a duration that also carries weeks, days or hours: "exactly as plain-date arithmetic from the first of the month" - the whole hours
+\* count as days (24 h each, toward zero), and the year-month of the date reached is the answer
+AddYmFull(v, yrs, mons, wks, days, hours, ovf) ==
+  IF ~FirstIsDate(v.y, v.m) THEN [kind |-> "any"]
+  ELSE LET hd == IF hours >= 0 THEN hours \div 24 ELSE -((-hours) \div 24)
+           r == AddDateI(First(v), yrs, mons, wks, days + hd, ovf)
+       IN IF r.kind # "ok" THEN r ELSE IF YmInLimits(r.val.y, r.val.m) THEN Ok(YMV(r.val.y, r.val.m, 1)) ELSE ErrRange
 \* with a duration of bigs (trace validation): only year/month durations are specified
 YmDurOK(D) == IsZero(D.w) /\ IsZero(D.d) /\ IsZero(D.h) /\ IsZero(D.mi) /\ IsZero(D.s) /\ IsZero(D.ms) /\ IsZero(D.us) /\ IsZero(D.ns)
 AddYm(v, D) == IF ~AbsLe(D.y, CapY) \/ ~AbsLe(D.mo, CapMo) THEN ErrRange ELSE AddYmI(v, ToInt(D.y), ToInt(D.mo))
